@@ -1487,7 +1487,9 @@ class ListNode(SyntaxNodeBase):
     @staticmethod
     def _join_entries(front, text):
         """
-        Appends the text of the next entry, and guarantees that two entries are never fused into one word.
+        Appends the text of the next entry, and guarantees that two entries are never fused into one word,
+        and that an entry behind a line break stays a continuation of this input (at least
+        ``BLANK_SPACE_CONTINUE`` leading blanks; a word in columns 1-5 would start a new input).
 
         :param front: the text so far.
         :type front: str
@@ -1495,8 +1497,13 @@ class ListNode(SyntaxNodeBase):
         :type text: str
         :rtype: str
         """
-        if front and text and not front[-1].isspace() and not text[0].isspace():
-            return f"{front} {text}"
+        if front and text:
+            if front[-1] == "\n":
+                lead = len(text) - len(text.lstrip(" "))
+                if lead < constants.BLANK_SPACE_CONTINUE:
+                    return front + " " * (constants.BLANK_SPACE_CONTINUE - lead) + text
+            elif not front[-1].isspace() and not text[0].isspace():
+                return f"{front} {text}"
         return front + text
 
     def __iter__(self):
